@@ -397,13 +397,18 @@ def log_amp(lo_exp, hi_exp):
 
 
 @st.composite
-def special_model_st(draw, cplx=None, max_modes=4, beta_lo=0.1, beta_hi=200.0, symm_modes=("default", "ignore", "custom"), wide=False, tiny_field=False):
+def special_model_st(draw, cplx=None, max_modes=4, beta_lo=0.1, beta_hi=200.0, symm_modes=("default", "ignore", "custom"), wide=False, tiny_field=False, wide_beta_e=3e4):
     """tiny_field=True: always the wide family with a Zeeman field between 1e-13 and 1e-7 (level splittings below the default
     1e-8 resonance tolerance or just above it); non-interacting, atomic-limit and particle-hole symmetric Hubbard models on spin-1/2 single-orbital sites;
     wide=True adds Hubbard clusters whose parameters span many orders of magnitude (strong coupling, tiny fields)"""
     if cplx is None:
         cplx = draw(st.booleans())
-    kind = "wide" if tiny_field else draw(st.sampled_from(["free", "atomic", "ph-hubbard"] + (["wide", "wide"] if wide else [])))
+    kind = "wide" if tiny_field else draw(st.sampled_from(["free", "atomic", "ph-hubbard"] + (["wide", "wide", "wide-thr"] if wide else [])))
+    # "wide-thr": the wide family at the boundary of the library's energy resolution: one interaction of 1e2..1e4 (large poles) and a
+    # Zeeman field that splits levels by 1e-6..1e-4, i.e. just above the guard band and near 1e-8 * |pole|
+    thr = kind == "wide-thr"
+    if thr:
+        kind = "wide"
     nsites = draw(st.integers(1, max(1, max_modes // 2)))
     labs = draw(st.lists(st.sampled_from(LABELS), min_size=nsites, max_size=nsites, unique=True))
     sites = [[l, 1, 2] for l in labs]
@@ -423,7 +428,7 @@ def special_model_st(draw, cplx=None, max_modes=4, beta_lo=0.1, beta_hi=200.0, s
     elif kind == "wide":
         # Hubbard cluster with parameters over many decades: U up to 1e4 (exchange 4t^2/U far below the hopping), hoppings
         # down to 1e-4, optional tiny Zeeman field (splittings far below every other scale)
-        U = abs(draw(log_amp(-2, 4)))
+        U = abs(draw(log_amp(2, 4))) if thr else abs(draw(log_amp(-2, 4)))
         ph = draw(st.booleans())
         for l in labs:
             Ul = U if draw(st.integers(0, 3)) else abs(draw(log_amp(-2, 4)))
@@ -431,8 +436,8 @@ def special_model_st(draw, cplx=None, max_modes=4, beta_lo=0.1, beta_hi=200.0, s
             terms.append(P("coulombS", l, [Ul, 0.0], [lev, 0.0]))
         for a in range(nsites - 1):
             terms.append(P("hop3", labs[a], labs[a + 1], [draw(log_amp(-4, 1)), 0.0]))
-        if tiny_field or draw(st.integers(0, 2)) == 0:
-            h = abs(draw(log_amp(-13, -7 if tiny_field else -1)))
+        if tiny_field or thr or draw(st.integers(0, 2)) == 0:
+            h = abs(draw(log_amp(-6.2, -4))) if thr else abs(draw(log_amp(-13, -7 if tiny_field else -1)))
             l = draw(st.sampled_from(labs))
             if draw(st.booleans()):      # longitudinal field h (n_up - n_dn) / transverse field h (c+_up c_dn + h.c.)
                 terms += with_hc([h, 0.0], [[1, l, 0, 0], [0, l, 0, 0]]) + with_hc([-h, 0.0], [[1, l, 0, 1], [0, l, 0, 1]])
@@ -447,10 +452,10 @@ def special_model_st(draw, cplx=None, max_modes=4, beta_lo=0.1, beta_hi=200.0, s
             terms.append(P("hop3", labs[a], labs[a + 1], [t, 0.0]))
     beta = draw(beta_st(beta_lo, beta_hi))
     if kind == "wide":
-        # keep beta * (largest energy) below ~3e4 as in the other families: beyond that the rounding error of the eigenvalues
+        # keep beta * (largest energy) below wide_beta_e (default 3e4, as in the other families): beyond that the rounding error of the eigenvalues
         # themselves (eps * E) becomes visible in exp(-beta E), which no tolerance model here accounts for
         amax = max([abs(a[0]) for t in terms if t["k"] == "preset" for a in t["args"] if isinstance(a, list)] + [1.0])
-        beta = min(beta, max(beta_lo, 3e4 / amax))
+        beta = min(beta, max(beta_lo, wide_beta_e / amax))
     symm = draw(symm_st(sites, symm_modes))
     m = {"cplx": bool(cplx), "sites": sites, "terms": terms, "order_spins": 0, "symm": symm, "beta": beta, "family": kind}
     if draw(st.integers(0, 3)) == 0:
@@ -459,8 +464,8 @@ def special_model_st(draw, cplx=None, max_modes=4, beta_lo=0.1, beta_hi=200.0, s
 
 
 def any_model_st(special_share=0.3, **kw):
-    skw = {k: v for k, v in kw.items() if k in ("cplx", "max_modes", "beta_lo", "beta_hi", "symm_modes", "wide")}
-    kw = {k: v for k, v in kw.items() if k != "wide"}
+    skw = {k: v for k, v in kw.items() if k in ("cplx", "max_modes", "beta_lo", "beta_hi", "symm_modes", "wide", "wide_beta_e")}
+    kw = {k: v for k, v in kw.items() if k not in ("wide", "wide_beta_e")}
     return st.one_of(model_st(**kw), model_st(**kw), special_model_st(**skw)) if special_share else model_st(**kw)
 
 
